@@ -248,7 +248,11 @@ enum GlobalClassItem<'a> {
 impl ToTokens for GlobalClassItem<'_> {
     fn to_tokens(&self, tokens: &mut TokenStream) {
         let addl_tokens = match self {
-            GlobalClassItem::Global(v) => v.to_token_stream(),
+            // the scope class is only known at runtime: escape it there, as the literal
+            // attribute values around it were escaped when the macro ran
+            GlobalClassItem::Global(v) => quote! {
+                &*::leptos::tachys::html::attribute::escape_attr(#v)
+            },
             GlobalClassItem::String(v) => v.to_token_stream(),
         };
         tokens.extend(addl_tokens);
